@@ -120,11 +120,11 @@ func priceGrid(tier string) (*PureEvidence, []Found) {
 // token x discounts x exchange rates with up to 18 decimals (the rate is what the exchange-rate service answers at
 // the block height). Reference = max(1, floor(amount in smallest units x dT x dV x rate)) in exact rationals.
 func priceGridFX(ev *PureEvidence, found map[string]*Found, distinct map[string]bool) {
-	rates := []string{"0.03", "1", "2.5", "1.333333333333333333", "0.666666666666666666", "0.000000000000000001", "1000000", "0.333333333333333334", "0.015"}
+	rates := []string{"0.03", "1", "2.5", "1.333333333333333333", "0.666666666666666666", "0.000000000000000001", "1000000", "0.333333333333333334", "0.015", "0.123456789012345678"}
 	rig := NewRig(RigConfig{FX: &FXSpec{Rates: map[string][]string{"cent-stake": rates}}})
 	ps := defaultParams()
 	ts := func(sec int) string { return T0.Add(timeSec(sec)).Format("2006-01-02T15:04:05Z") }
-	prices := []string{"1usd", "1.5usd", "0.03usd", "150cent", "3cent", "0cent", "0.002kilo", "0.0015kilo", "2stake"}
+	prices := []string{"1usd", "1.5usd", "3usd", "300usd", "0.03usd", "150cent", "3cent", "0cent", "0.002kilo", "0.0015kilo", "2stake", "1000000000000000000cent"}
 	timeLayouts := []string{"", fmt.Sprintf(`[{"start_time":"%s","end_time":"%s","discount":"0.5"}]`, ts(10), ts(20)),
 		fmt.Sprintf(`[{"start_time":"%s","end_time":"%s","discount":"0.333333333333333334"}]`, ts(10), ts(20))}
 	volLayouts := []string{"", `[{"volume":1,"discount":"0.9"}]`, `[{"volume":1,"discount":"0.999999999999999998"}]`}
